@@ -189,4 +189,95 @@ theorem configure_none_iff_valid (c : Config) : configure c = none ↔ Valid c :
       · simp only [hh, if_true, firstFail_flatMap]; exact fun m hm => (notifier_iff m).mpr (v.notifiers hh m hm)
       · simp [hh, firstFail_nil]
 
+/-! ### the refusal site under arbitrary module order -/
+
+theorem chain_eq_segs (c : Config) : chain c = (segs c).flatMap Seg.flat := by
+  simp only [chain, segs, Seg.flat, List.flatMap_cons, List.flatMap_nil, List.flatten_nil, List.append_nil,
+    List.nil_append, List.flatMap_def, List.append_assoc, List.cons_append]
+  cases c.haveNotifiers <;> simp [Seg.flat]
+
+theorem firstFail_append_some {a b : Chain} {x : Check} (h : firstFail (a ++ b) = some x) :
+    firstFail a = some x ∨ (firstFail a = none ∧ firstFail b = some x) := by
+  induction a with
+  | nil => right; exact ⟨rfl, by simpa using h⟩
+  | cons p rest ih =>
+    obtain ⟨bb, cc⟩ := p
+    cases bb with
+    | true => left; simpa [firstFail] using h
+    | false => simpa [firstFail] using ih (by simpa [firstFail] using h)
+
+theorem firstFail_flatten_some {l : List Chain} {x : Check} (h : firstFail l.flatten = some x) :
+    ∃ ch ∈ l, firstFail ch = some x := by
+  induction l with
+  | nil => simp [firstFail] at h
+  | cons a rest ih =>
+    simp only [List.flatten_cons] at h
+    rcases firstFail_append_some h with h1 | ⟨_, h2⟩
+    · exact ⟨a, by simp, h1⟩
+    · obtain ⟨ch, hch, hx⟩ := ih h2
+      exact ⟨ch, List.mem_cons_of_mem _ hch, hx⟩
+
+theorem firstFail_flatten_none (l : List Chain) : firstFail l.flatten = none ↔ ∀ ch ∈ l, firstFail ch = none := by
+  induction l with
+  | nil => simp
+  | cons a rest ih => simp [List.flatten_cons, firstFail_append, ih]
+
+theorem seg_sites_nil_iff (s : Seg) : s.sites = [] ↔ firstFail s.flat = none := by
+  unfold Seg.sites Seg.flat
+  rw [firstFail_append, firstFail_flatten_none]
+  cases h : firstFail s.pre with
+  | some x => simp
+  | none =>
+    simp only [true_and, List.filterMap_eq_nil_iff]
+
+theorem seg_mem_sites {s : Seg} {x : Check} (h : firstFail s.flat = some x) : x ∈ s.sites := by
+  unfold Seg.flat at h
+  unfold Seg.sites
+  rcases firstFail_append_some h with h1 | ⟨h1, h2⟩
+  · simp [h1]
+  · simp only [h1]
+    obtain ⟨ch, hch, hx⟩ := firstFail_flatten_some h2
+    exact List.mem_filterMap.mpr ⟨ch, hch, hx⟩
+
+theorem sitesOf_nil_iff (l : List Seg) : sitesOf l = [] ↔ firstFail (l.flatMap Seg.flat) = none := by
+  induction l with
+  | nil => simp [sitesOf]
+  | cons s rest ih =>
+    simp only [sitesOf, List.flatMap_cons, firstFail_append]
+    by_cases hs : s.sites.isEmpty = true
+    · simp only [hs, if_true, ih]
+      have := (seg_sites_nil_iff s).mp (List.isEmpty_iff.mp hs)
+      simp [this]
+    · simp only [hs, if_false]
+      have hne : s.sites ≠ [] := by simpa [List.isEmpty_iff] using hs
+      constructor
+      · intro h; exact absurd h hne
+      · rintro ⟨h, _⟩; exact absurd ((seg_sites_nil_iff s).mpr h) hne
+
+theorem sitesOf_mem {l : List Seg} {x : Check} (h : firstFail (l.flatMap Seg.flat) = some x) : x ∈ sitesOf l := by
+  induction l with
+  | nil => simp [firstFail] at h
+  | cons s rest ih =>
+    simp only [List.flatMap_cons] at h
+    simp only [sitesOf]
+    rcases firstFail_append_some h with h1 | ⟨h1, h2⟩
+    · have hm := seg_mem_sites h1
+      have : s.sites.isEmpty = false := by
+        cases hs : s.sites with
+        | nil => rw [hs] at hm; simp at hm
+        | cons _ _ => rfl
+      simp only [this]; exact hm
+    · have : s.sites.isEmpty = true := List.isEmpty_iff.mpr ((seg_sites_nil_iff s).mpr h1)
+      simp only [this, if_true]; exact ih h2
+
+/-- whether the configuration is refused does not depend on the order the modules are taken in … -/
+theorem configureSites_nil_iff (c : Config) : configureSites c = [] ↔ configure c = none := by
+  unfold configureSites configure
+  rw [chain_eq_segs]; exact sitesOf_nil_iff _
+
+/-- … and the site named for the listed order is one of the sites a refusal may name -/
+theorem configure_mem_sites {c : Config} {x : Check} (h : configure c = some x) : x ∈ configureSites c := by
+  unfold configureSites; unfold configure at h
+  rw [chain_eq_segs] at h; exact sitesOf_mem h
+
 end Burrow.Config
